@@ -1,5 +1,7 @@
-(* The transcribed matcher never indexes the pattern out of range on a target without NUL bytes
-   (the Go code's panic needs a NUL inside the target: it is read as "end of string"). *)
+(* Proofs about the transcribed typo matcher (Model/Fuzzy.v):
+   - it never indexes the pattern out of range on a target without NUL bytes (the Go code's panic needs a NUL inside the
+     target: it is read as "end of string");
+   - every match it reports on such a target is a genuine in-order, case-insensitive occurrence of the pattern. *)
 From Coq Require Import List NArith ZArith Bool Lia.
 From WTF Require Import Model.Validate Model.Text Model.Fuzzy.
 Import ListNotations.
@@ -10,13 +12,43 @@ Proof.
   replace (N.min 0 n) with 0%N by lia. reflexivity.
 Qed.
 
+Lemma eq_fold_sym a b : eq_fold a b = eq_fold b a.
+Proof. unfold eq_fold. rewrite (N.eqb_sym a b), (N.max_comm a b), (N.min_comm a b). reflexivity. Qed.
+
+(* ---- the candidate part ---- *)
+Lemma cand_spec j c p st : (0 <= f_adj st)%Z ->
+  let '(b, m, a) := cand j c p st in
+  (0 <= a)%Z /\
+  ((b = f_best st /\ m = f_mi st) \/ (eq_fold c p = true /\ m = j /\ (0 <= b)%Z /\ (f_best st < b)%Z)) /\
+  (eq_fold c p = true -> (f_best st <= -1)%Z -> m = j /\ (0 <= b)%Z).
+Proof.
+  intros A. unfold cand. destruct (eq_fold c p) eqn:E; [|repeat split; auto; discriminate].
+  set (s0 := ((if Z.eqb j 0 then 10 else 0) + (if is_lower (f_last st) && is_upper c then 20 else 0) +
+              (if negb (Z.eqb j 0) && is_sep (f_last st) then 20 else 0))%Z).
+  assert (S0 : (0 <= s0)%Z).
+  { unfold s0. destruct (Z.eqb j 0), (is_lower (f_last st) && is_upper c), (is_sep (f_last st)); simpl; lia. }
+  set (bonus := match f_matched st with [] => 0%Z | lm :: _ => if Z.eqb lm (f_last_index st) then (f_adj st * 2 + 5)%Z else 0%Z end).
+  assert (B0 : (0 <= bonus)%Z).
+  { unfold bonus. destruct (f_matched st) as [|lm ms]; [lia|]. destruct (Z.eqb lm (f_last_index st)); lia. }
+  destruct (f_best st <? s0 + bonus)%Z eqn:L.
+  - apply Z.ltb_lt in L. split; [lia|]. split; [right; repeat split; lia|]. intros _ _. split; [reflexivity | lia].
+  - apply Z.ltb_ge in L. split; [lia|]. split; [left; split; reflexivity|]. intros _ H. lia.
+Qed.
+
+(* ---- no panic ---- *)
 Lemma fstep_some runes j c nextc st : (f_pi st < length runes)%nat -> exists st', fstep runes j c nextc st = Some st'.
 Proof.
   intros H. unfold fstep. destruct (nth_error runes (f_pi st)) as [p|] eqn:E; [|apply nth_error_None in E; lia].
-  destruct (eq_fold c p).
-  - destruct (f_matched st) as [|lm ms];
-      repeat match goal with |- context [if ?b then _ else _] => destruct b end; eauto.
-  - repeat match goal with |- context [if ?b then _ else _] => destruct b end; eauto.
+  destruct (cand j c p st) as [[b m] a]. destruct (_ && _); eauto.
+Qed.
+
+Lemma trigger_end_or_more runes pi nextc :
+  (pi < length runes)%nat -> (eq_fold (next_pattern_rune runes pi) nextc || N.eqb nextc 0)%bool = true ->
+  nextc = 0%N \/ ((S pi < length runes)%nat /\ eq_fold (nth (S pi) runes 0%N) nextc = true).
+Proof.
+  intros L Hb. apply orb_prop in Hb. destruct Hb as [Hb|Hb]; [|left; apply N.eqb_eq in Hb; exact Hb].
+  unfold next_pattern_rune in Hb. destruct (Nat.ltb_spec pi (length runes - 1)); [right; split; [lia | exact Hb]|].
+  destruct (N.eq_dec nextc 0) as [Z|Z]; [left; exact Z|]. rewrite eq_fold_zero in Hb by exact Z. discriminate.
 Qed.
 
 Lemma fstep_pi runes j c nextc st st' : fstep runes j c nextc st = Some st' ->
@@ -24,20 +56,10 @@ Lemma fstep_pi runes j c nextc st st' : fstep runes j c nextc st = Some st' ->
 Proof.
   unfold fstep. destruct (nth_error runes (f_pi st)) as [p|] eqn:E; [|discriminate].
   assert (L : (f_pi st < length runes)%nat) by (apply nth_error_Some; congruence).
-  set (nextp := if Nat.ltb (f_pi st) (length runes - 1) then nth (S (f_pi st)) runes 0%N else 0%N).
-  assert (T : forall b1 mi1, ((eq_fold nextp nextc || N.eqb nextc 0) && (-1 <? mi1)%Z)%bool = b1 -> b1 = true ->
-              nextc = 0%N \/ (S (f_pi st) < length runes)%nat).
-  { intros b1 mi1 <- Hb. apply andb_prop in Hb. destruct Hb as [Hb _]. apply orb_prop in Hb. destruct Hb as [Hb|Hb].
-    - unfold nextp in Hb. destruct (Nat.ltb_spec (f_pi st) (length runes - 1)); [right; lia|].
-      destruct (N.eq_dec nextc 0) as [Z|Z]; [left; exact Z|]. rewrite eq_fold_zero in Hb by exact Z. discriminate.
-    - left. apply N.eqb_eq in Hb. exact Hb. }
-  destruct (eq_fold c p).
-  - destruct (f_matched st) as [|lm ms].
-    + destruct (f_best st <? _)%Z;
-        match goal with |- context [if ?b then _ else _] => destruct b eqn:B end; intros [= <-]; simpl; auto; right; split; auto; eapply T; eauto.
-    + destruct (f_best st <? _)%Z;
-        match goal with |- context [if ?b then _ else _] => destruct b eqn:B end; intros [= <-]; simpl; auto; right; split; auto; eapply T; eauto.
-  - match goal with |- context [if ?b then _ else _] => destruct b eqn:B end; intros [= <-]; simpl; auto; right; split; auto; eapply T; eauto.
+  destruct (cand j c p st) as [[b m] a].
+  destruct ((eq_fold (next_pattern_rune runes (f_pi st)) nextc || N.eqb nextc 0) && (-1 <? m)%Z) eqn:T; intros [= <-]; simpl; [|auto].
+  right. split; [reflexivity|]. apply andb_prop in T. destruct T as [T _].
+  destruct (trigger_end_or_more runes (f_pi st) nextc L T) as [Z|[Z _]]; auto.
 Qed.
 
 Lemma floop_no_panic runes : forall s j st, nul_free s = true -> (s = [] \/ (f_pi st < length runes)%nat) ->
@@ -67,3 +89,144 @@ Proof. vm_compute. reflexivity. Qed.
 
 Lemma matcher_panic_witness : exists pattern target, pattern <> [] /\ score_target pattern target = FPanic.
 Proof. exists [97%N], [97%N; 0%N; 98%N]. split; [discriminate | exact matcher_panics_on_nul]. Qed.
+
+(* ---- every reported match is genuine ---- *)
+Definition at_pos (target : list N) (i : Z) : N := nth (Z.to_nat i) target 0%N.
+
+(* matched indexes, most recent first: strictly decreasing, below the bound, the k-th (from the start of the pattern) an
+   occurrence of the k-th pattern rune up to ASCII case *)
+Fixpoint genuine_rev (pattern target : list N) (k : nat) (ms : list Z) (bound : Z) : Prop :=
+  match ms with
+  | [] => k = 0%nat
+  | m :: r => (0 <= m < bound)%Z /\
+              exists k', k = S k' /\ eq_fold (at_pos target m) (nth k' pattern 0%N) = true /\ genuine_rev pattern target k' r m
+  end.
+
+Lemma genuine_rev_weaken pattern target k ms b b' : (b <= b')%Z -> genuine_rev pattern target k ms b -> genuine_rev pattern target k ms b'.
+Proof. destruct ms as [|m r]; simpl; [auto|]. intros L [[A B] H]. split; [lia | exact H]. Qed.
+
+Section Genuine.
+Variable pattern : list N.
+
+Definition fresh (target : list N) (j : Z) (st : fstate) : Prop :=
+  (0 <= f_mi st < j)%Z /\ (match f_matched st with [] => True | m :: _ => (m < f_mi st)%Z end) /\
+  eq_fold (at_pos target (f_mi st)) (nth (f_pi st) pattern 0%N) = true.
+
+Definition Inv (pre s : list N) (st : fstate) : Prop :=
+  let j := Z.of_nat (length pre) in let target := (pre ++ s)%list in
+  f_pi st = length (f_matched st) /\
+  genuine_rev pattern target (f_pi st) (f_matched st) j /\
+  (-1 <= f_best st)%Z /\ (0 <= f_adj st)%Z /\
+  (((-1 < f_best st)%Z /\ fresh target j st) \/
+   (f_best st = -1 /\
+    ((f_matched st = [] /\ f_mi st = -1) \/
+     (f_matched st <> [] /\ match s with c :: _ => eq_fold c (nth (f_pi st) pattern 0%N) = true | [] => True end)))%Z).
+
+Lemma at_pos_here pre c r : at_pos (pre ++ c :: r) (Z.of_nat (length pre)) = c.
+Proof. unfold at_pos. rewrite Nat2Z.id, app_nth2, Nat.sub_diag by lia. reflexivity. Qed.
+
+Lemma Inv_init target : Inv [] target finit.
+Proof. unfold Inv, finit; simpl. repeat split; try lia. right. split; [reflexivity|]. left. split; reflexivity. Qed.
+
+Lemma Inv_step pre c r st st' :
+  nul_free (c :: r) = true -> Inv pre (c :: r) st ->
+  fstep pattern (Z.of_nat (length pre)) c (match r with [] => 0%N | n :: _ => n end) st = Some st' ->
+  Inv (pre ++ [c]) r st'.
+Proof.
+  intros NF [Ipi [Ig [Ib [Ia Ic]]]] E. unfold fstep in E.
+  destruct (nth_error pattern (f_pi st)) as [p|] eqn:Ep; [|discriminate].
+  assert (Lp : (f_pi st < length pattern)%nat) by (apply nth_error_Some; congruence).
+  assert (Pp : nth (f_pi st) pattern 0%N = p) by (apply nth_error_nth; exact Ep).
+  set (j := Z.of_nat (length pre)) in *.
+  set (target := (pre ++ c :: r)%list) in *.
+  assert (T' : ((pre ++ [c]) ++ r)%list = target) by (unfold target; rewrite <- app_assoc; reflexivity).
+  assert (J' : Z.of_nat (length (pre ++ [c])) = (j + 1)%Z) by (rewrite app_length; simpl; unfold j; lia).
+  pose proof (cand_spec j c p st Ia) as C. destruct (cand j c p st) as [[b m] a]. destruct C as [Ca [Cbm Cfirst]].
+  (* after the candidate part: either a fresh matched index, or nothing matched yet *)
+  assert (Fr : ((-1 < b)%Z /\ (0 <= m < j + 1)%Z /\ (match f_matched st with [] => True | x :: _ => (x < m)%Z end) /\
+                eq_fold (at_pos target m) (nth (f_pi st) pattern 0%N) = true) \/
+               (b = (-1)%Z /\ m = (-1)%Z /\ f_matched st = [])).
+  { destruct Ic as [[Ib1 [Fm [Fo Fe]]]|[Ib1 [[Me Mi]|[Mn Mc]]]].
+    - left. destruct Cbm as [[-> ->]|[Ce [-> [B0 B1]]]].
+      + repeat split; try lia; auto.
+      + repeat split; try lia.
+        * destruct (f_matched st) as [|x xs]; [exact I|]. simpl in Ig. destruct Ig as [[_ Xj] _]. fold j in Xj. lia.
+        * unfold target, j. rewrite at_pos_here, Pp. exact Ce.
+    - destruct Cbm as [[-> ->]|[Ce [-> [B0 B1]]]].
+      + right. repeat split; auto.
+      + left. repeat split; try lia.
+        * rewrite Me. exact I.
+        * unfold target, j. rewrite at_pos_here, Pp. exact Ce.
+    - left. rewrite Pp in Mc. destruct (Cfirst Mc ltac:(lia)) as [-> B0]. repeat split; try lia.
+      + destruct (f_matched st) as [|x xs]; [exact I|]. simpl in Ig. destruct Ig as [[_ Xj] _]. fold j in Xj. lia.
+      + unfold target, j. rewrite at_pos_here, Pp. exact Mc. }
+  destruct ((eq_fold (next_pattern_rune pattern (f_pi st)) (match r with [] => 0%N | n :: _ => n end) ||
+             N.eqb (match r with [] => 0%N | n :: _ => n end) 0) && (-1 <? m)%Z) eqn:Tr; injection E as <-; unfold Inv; simpl; rewrite T', J'.
+  - (* the best candidate is applied *)
+    apply andb_prop in Tr. destruct Tr as [Tr Mpos]. apply Z.ltb_lt in Mpos.
+    destruct Fr as [[B1 [Mr [Mo Me]]]|[_ [Mm _]]]; [|lia].
+    split; [rewrite Ipi; reflexivity|]. split.
+    { split; [lia|]. exists (f_pi st). repeat split; auto.
+      destruct (f_matched st) as [|x xs] eqn:Ms.
+      - simpl in Ig. simpl. exact Ig.
+      - simpl in Ig |- *. destruct Ig as [[X0 Xj] H]. split; [lia | exact H]. }
+    split; [lia|]. split; [exact Ca|].
+    right. split; [reflexivity|]. right. split; [discriminate|].
+    destruct r as [|n r']; [exact I|].
+    destruct (trigger_end_or_more pattern (f_pi st) n Lp Tr) as [Z|[_ Z]].
+    + exfalso. simpl in NF. apply andb_prop in NF. destruct NF as [_ NF]. simpl in NF. apply andb_prop in NF. destruct NF as [NF _].
+      subst n. discriminate.
+    + rewrite eq_fold_sym. exact Z.
+  - (* nothing applied *)
+    split; [exact Ipi|]. split; [apply (genuine_rev_weaken _ _ _ _ j); [lia | exact Ig]|].
+    destruct Fr as [[B1 [Mr [Mo Me]]]|[Bm [Mm Me]]].
+    + split; [lia|]. split; [exact Ca|]. left. split; [exact B1|]. unfold fresh; simpl. repeat split; try lia; auto.
+    + split; [lia|]. split; [exact Ca|]. right. split; [exact Bm|]. left. split; assumption.
+Qed.
+
+Lemma Inv_loop : forall s pre st st', nul_free s = true -> Inv pre s st ->
+  floop pattern (Z.of_nat (length pre)) s st = Some st' -> Inv (pre ++ s) [] st'.
+Proof.
+  induction s as [|c r IH]; intros pre st st' NF I E; simpl in E.
+  - injection E as <-. rewrite app_nil_r. exact I.
+  - destruct (fstep pattern (Z.of_nat (length pre)) c (match r with [] => 0%N | n :: _ => n end) st) as [st1|] eqn:S; [|discriminate].
+    pose proof (Inv_step pre c r st st1 NF I S) as I1.
+    replace (pre ++ c :: r)%list with ((pre ++ [c]) ++ r)%list by (rewrite <- app_assoc; reflexivity).
+    apply (IH (pre ++ [c])%list st1 st'); [simpl in NF; apply andb_prop in NF; apply NF | exact I1|].
+    rewrite app_length. simpl. replace (Z.of_nat (length pre + 1)) with (Z.of_nat (length pre) + 1)%Z by lia. exact E.
+Qed.
+End Genuine.
+
+(* indexes in pattern order: strictly increasing positions of the target, the k-th holding the k-th pattern rune up to ASCII case *)
+Fixpoint genuine_fwd (pattern target : list N) (k : nat) (lo : Z) (idx : list Z) : Prop :=
+  match idx with
+  | [] => True
+  | i :: r => (lo < i < Z.of_nat (length target))%Z /\ eq_fold (at_pos target i) (nth k pattern 0%N) = true /\
+              genuine_fwd pattern target (S k) i r
+  end.
+
+Lemma genuine_rev_fwd pattern target : forall ms k bound, (0 <= bound <= Z.of_nat (length target))%Z ->
+  genuine_rev pattern target k ms bound ->
+  forall tail, (match tail with [] => True | t :: _ => (bound <= t)%Z end) -> genuine_fwd pattern target k (bound - 1) tail ->
+  genuine_fwd pattern target 0 (-1) (rev ms ++ tail).
+Proof.
+  induction ms as [|m r IH]; intros k bound Lb G tail Ht Gt; simpl in G.
+  - subst k. simpl. destruct tail as [|t tl]; [exact I|]. simpl in Gt |- *. destruct Gt as [[A B] [C D]]. repeat split; auto; lia.
+  - destruct G as [[M0 Mb] [k' [-> [Em Gr]]]]. simpl. rewrite <- app_assoc. simpl.
+    apply (IH k' m ltac:(lia) Gr (m :: tail)); [lia|].
+    simpl. repeat split; try lia; auto.
+    destruct tail as [|t tl]; [exact I|]. simpl in Gt |- *. destruct Gt as [[A B] [C D]]. repeat split; auto; lia.
+Qed.
+
+(* every match on a NUL-free target is a genuine in-order occurrence of the whole pattern *)
+Lemma matcher_genuine pattern target s idx : nul_free target = true ->
+  score_target pattern target = FMatch s idx ->
+  length idx = length pattern /\ genuine_fwd pattern target 0 (-1) idx.
+Proof.
+  intros NF. unfold score_target. destruct (floop pattern 0 target finit) as [st|] eqn:E; [|discriminate].
+  destruct (Nat.eqb_spec (length (f_matched st)) (length pattern)) as [L|L]; [|discriminate]. intros [= _ <-].
+  pose proof (Inv_loop pattern target [] finit st NF (Inv_init pattern target) E) as [Ipi [Ig _]]. simpl in Ig. rewrite app_nil_r in Ig.
+  split; [rewrite rev_length; exact L|].
+  rewrite <- (app_nil_r (rev (f_matched st))).
+  apply (genuine_rev_fwd pattern target (f_matched st) (f_pi st) (Z.of_nat (length target)) ltac:(lia) Ig []); simpl; exact I.
+Qed.
